@@ -143,6 +143,8 @@ structure St where
   nChecks : Nat := 0
   nVerify : Nat := 0
   nInputs : Nat := 0
+  -- the last signature verification performed (public key bytes, message, signature, verdict)
+  lastVerify : Option (Bytes × Bytes × Bytes × Bool) := none
 
 def St.emit (s : St) (l : String) : St := { s with out := s.out.push l }
 def St.diff (s : St) (field model impl : String) : St :=
@@ -154,6 +156,18 @@ def St.chk (s : St) : St := { s with nChecks := s.nChecks + 1 }
 
 def St.cmp (s : St) (field model impl : String) : St :=
   if model == impl then s.chk else (s.diff field model impl).chk
+
+/-- verify through the one-entry cache kept in the state -/
+def St.verifyCached (s : St) (S : Scheme) (toB : S.PK → Bytes) (pk : S.PK) (msg sig : Bytes) : St × Bool :=
+  match s.lastVerify with
+  | some (p, m, g, v) =>
+    if p == toB pk && m == msg && g == sig then (s, v)
+    else
+      let v := S.verify pk msg sig
+      ({ s with lastVerify := some (toB pk, msg, sig, v), nVerify := s.nVerify + 1 }, v)
+  | none =>
+    let v := S.verify pk msg sig
+    ({ s with lastVerify := some (toB pk, msg, sig, v), nVerify := s.nVerify + 1 }, v)
 
 /-- `S` with one verification result memoised -/
 def memo (S : Scheme) [DecidableEq S.PK] (pk : S.PK) (msg sig : Bytes) (v : Bool) : Scheme :=
@@ -191,8 +205,7 @@ def checkRecord (d : DS) (s : St) (o : Obs) (what : String) : St × Scheme × Op
   match S.enrToPublic r.content with
   | .error _ => (s.prop "C05" "has_public_key" s!"pairs={showPairs r.content}", S, none)
   | .ok pk =>
-    let v := S.verify pk r.rlpContent r.sig
-    let s := { s with nVerify := s.nVerify + 1 }
+    let (s, v) := s.verifyCached S d.toB pk r.rlpContent r.sig
     let s := if v then s.chk else s.prop "C05" "verifies_under_own_key" s!"sig={hex r.sig}"
     let s := if r.id == some vV4 then s.chk else s.prop "C05" "id_is_v4" ""
     let s := if r.nodeId == nodeIdOf S pk then s.chk
@@ -454,8 +467,7 @@ def handleDec (d : DS) (s : St) (t : Toks) (o : Toks) (rec : Option Obs) (isInit
     | some ob =>
       match S.enrToPublic ob.pairs with
       | .ok pk =>
-        let v := S.verify pk ob.toRec.rlpContent ob.sig
-        let s := { s with nVerify := s.nVerify + 1 }
+        let (s, v) := s.verifyCached S d.toB pk ob.toRec.rlpContent ob.sig
         let s := if v then s.chk else s.prop "C01" "accepted_record_is_authentic" s!"buf={hex buf}"
         (@memo S d.deq pk ob.toRec.rlpContent ob.sig v, s)
       | .error _ => (S, s.prop "C01" "accepted_record_has_key" s!"buf={hex buf}")
@@ -667,8 +679,8 @@ def handleBuild (d : DS) (s : St) (t : Toks) (o : Toks) (rec : Option Obs) : St 
     -- SigOK: the signer's answer verifies
     let s := match prep, oracle with
       | .ok b', some sg =>
-        let s := { s with nVerify := s.nVerify + 1 }
-        if S.verify pk b'.rlpContent sg then s.chk else s.prop "C05" "sigok_signer_answer_verifies" ""
+        let (s, v) := s.verifyCached S d.toB pk b'.rlpContent sg
+        if v then s.chk else s.prop "C05" "sigok_signer_answer_verifies" ""
       | _, _ => s
     let m := Builder.build S b pk oracle
     let (mres, mrec) : String × Option Record := match m with
@@ -763,8 +775,8 @@ def handleStep (d : DS) (s : St) (t : Toks) (o : Toks) (after : Obs) : St :=
         | [] => none
       let s := match req, oracle with
         | some m, some sg =>
-          let s := { s with nVerify := s.nVerify + 1 }
-          if S.verify pk m sg then s.chk else s.prop "C05" "sigok_signer_answer_verifies" ""
+          let (s, v) := s.verifyCached S d.toB pk m sg
+          if v then s.chk else s.prop "C05" "sigok_signer_answer_verifies" ""
         | _, _ => s
       let (mo, mr) := step S r op pk oracle
       let mres := match mo with
